@@ -48,7 +48,7 @@ def run_c15(out, tier):
     base = archives()[0]
     specs = []
     for op in ("export", "extract_chk", "extract_file", "save", "import"):
-        for dest in ("absent", "existing", "same"):
+        for dest in ("absent", "existing", "existing-empty", "same"):
             for flag in ("default", "false", "true"):
                 s = {"op": op, "base": base, "dest": dest, "flag": flag, "fault": None}
                 if op == "import":
@@ -63,7 +63,7 @@ def run_c15(out, tier):
             out.notes.append("harness error: %s %s" % (desc(spec), r["harness_error"][:120]))
             out.disagreements.append({"op": "fileops child", "what": r["harness_error"][:200], "spec": desc(spec)})
             continue
-        existed = spec["dest"] in ("existing", "same")
+        existed = spec["dest"] in ("existing", "existing-empty", "same")
         optin = spec["flag"] == "true"
         b, a = r["before"], r["after"]
         d = {"spec": desc(spec), "exception": r["exception"], "before": b, "after": a}
@@ -240,15 +240,17 @@ def duration_law(out, tier, rng):
     lines, reals = [], []
     d = tempfile.mkdtemp(prefix="vwav_")
     try:
-        for frames, rate in cases:
+        for ci, (frames, rate) in enumerate(cases):
             p = os.path.join(d, "t.wav")
+            # mono / stereo / 3 channels, 8 / 16 / 24 bit samples: a frame is one sample PER channel
+            channels, width = [(1, 1), (2, 1), (2, 2), (1, 2), (3, 3)][ci % 5]
             with wave.open(p, "wb") as w:
-                w.setnchannels(1)
-                w.setsampwidth(1)
+                w.setnchannels(channels)
+                w.setsampwidth(width)
                 w.setframerate(rate)
-                w.writeframes(b"\x80" * frames)
+                w.writeframes(b"\x80" * (frames * channels * width))
             got = M._calculate_wav_file_duration_ms(p)
-            out.case("c17:duration", ("%d/%d" % (frames, rate)).encode(), sample={"frames": frames, "rate": rate, "ms": got})
+            out.case("c17:duration", ("%d/%d/%d/%d" % (frames, rate, channels, width)).encode(), sample={"frames": frames, "rate": rate, "channels": channels, "sample_bytes": width, "ms": got})
             if got != frames * 1000 // rate:
                 out.violations.append({"oracle": "WAV duration is the true duration in whole milliseconds", "frames": frames, "rate": rate, "got": got, "true": frames * 1000 // rate})
             lines.append("wavms %d %d" % (frames, rate))
